@@ -132,7 +132,9 @@ class ParallelInfo(Generic[CombinatorialClassType, CombinatorialObjectType]):
 
         for eq_par, eq_chi in lis:
             parent, rule = self._get_class_and_rule(eq_par, eq_chi, rule_dict)
-            assert not parent.is_empty()
+            if parent.is_empty():
+                # Only an empty start class has a rule; it matches nothing.
+                continue
             if parent.is_atom():
                 sz = next(
                     parent.objects_of_size(parent.minimum_size_of_object())
